@@ -18,7 +18,8 @@ use crate::{
         computation_graph::{
             CallerInformation, QueryKind,
             database::{
-                NodeDependency, NodeInfo, Observation, Snapshot, Timestamp,
+                ForwardEdgeObservation, NodeDependency, NodeInfo, Observation,
+                Snapshot, Timestamp,
             },
             slow_path::SlowPath,
             tfc_achetype::TransitiveFirewallCallees,
@@ -631,7 +632,10 @@ impl<C: Config, Q: Query> Snapshot<C, Q> {
     pub(super) async fn computing_lock_to_clean_query(
         mut self,
         clean_edges: Vec<QueryID>,
-        new_tfc: Option<Interned<TransitiveFirewallCallees>>,
+        new_tfc: Option<(
+            Interned<TransitiveFirewallCallees>,
+            ForwardEdgeObservation<C>,
+        )>,
         caller_information: &CallerInformation,
         mut lock_guard: ComputingLockGuard<C>,
     ) {
